@@ -67,6 +67,12 @@ func decodeABIElement(ctx context.Context, breadcrumbs string, block []byte, hea
 			headStart += headOffset
 			headPosition = headStart
 
+			// Every entry has a 32 byte offset in the head, so check the data could hold the declared
+			// number of entries before allocating anything of that size
+			if component.arrayLength > 0 && (component.arrayLength-1)*32 >= len(block)-headStart {
+				return -1, nil, i18n.NewError(ctx, signermsgs.MsgNotEnoughBytesABIValue, component, breadcrumbs)
+			}
+
 			// Fixed arrays of dynamic types are encoded identically to a tuple with all entries the same type
 			children := make([]*typeComponent, component.arrayLength)
 			for i := 0; i < component.arrayLength; i++ {
@@ -211,6 +217,11 @@ func decodeABIString(ctx context.Context, desc string, block []byte, headStart, 
 
 func decodeABIFixedArrayBytes(ctx context.Context, breadcrumbs string, block []byte, headStart, headPosition int, component *typeComponent) (headBytesRead int, cv *ComponentValue, err error) {
 
+	// Every entry that occupies any space occupies at least 32 bytes, so check the data could hold the
+	// declared number of entries before allocating anything of that size
+	if component.arrayLength > 0 && occupiesHeadBytes(component.arrayChild) && (component.arrayLength-1)*32 >= len(block)-headPosition {
+		return -1, nil, i18n.NewError(ctx, signermsgs.MsgNotEnoughBytesABIValue, component, breadcrumbs)
+	}
 	cv = &ComponentValue{
 		Component: component,
 		Children:  make([]*ComponentValue, component.arrayLength),
